@@ -37,6 +37,7 @@ import ZoektModel.C01.BTreeLemmas
 import ZoektModel.C01.FullLemmas
 import ZoektModel.C01.WordLemmas
 import ZoektModel.C01.SelectLemmas
+import ZoektModel.C01.CaseLemmas
 namespace ZoektModel.C01
 
 /-- **one `evalMatchTree` call** on a consistent tree: the tree stays consistent, its plain value is unchanged, a decided
@@ -556,6 +557,46 @@ theorem selection_consistent_thm (pat freqs : List Nat) (hlen : 3 ≤ pat.length
 example : sortedPositions [97, 98, 99, 97, 98, 100] = [0, 3, 1, 2] := by decide
 example : findSelective (sortedPositions [97, 98, 99, 97, 98, 100]) (mkIndexMap (sortedPositions [97, 98, 99, 97, 98, 100]))
     [9, 9, 1, 2] = (0, 3) := by decide
+
+/-- **`variants_cover`**: `generateCaseNgrams` (the odometer over the `SimpleFold` orbits of the trigram's runes, `fold` a
+    parameter with finite cycles through the three runes) terminates after one period and returns every triple of the
+    product of the three orbits -/
+theorem variants_cover (fold : Nat → Nat) (a b c k0 k1 k2 : Nat) (ha : Cyc fold a k0) (hb : Cyc fold b k1)
+    (hc : Cyc fold c k2) (fuel : Nat) (hf : k0 * (k1 * (k2 * 1)) ≤ fuel) (tuple : List Nat)
+    (ht : InOrbits fold [a, b, c] tuple) : tuple ∈ generateCase fold [a, b, c] fuel :=
+  generateCase_cover fold [a, b, c] _ (odo_three fold a b c k0 k1 k2 ha hb hc) fuel hf tuple ht
+
+/-- **case-insensitive leaves over the GENERATED variants**: if `fold` has finite cycles through the runes of the two
+    selected trigrams of the pattern and FoldAgree holds for them (whatever lower-cases like such a rune lies in its
+    fold orbit — the property's restriction; the rest is C08), then the leaf built over the posting lists of
+    `generateCaseNgrams`' variants satisfies the leaf invariant, so the composition theorems apply to it -/
+theorem substr_ci_leaf_ok_generated (ctx : Ctx) (fileName : Bool) (pat : List Nat) (i j : Nat) (fold : Nat → Nat)
+    (N1 N2 fuel : Nat) (hij : i ≤ j) (hj : j + 3 ≤ pat.length)
+    (hsz : totalLen (ctx.texts fileName) + pat.length < maxU32)
+    (ho1 : Odo fold (tri pat i) N1) (ho2 : Odo fold (tri pat j) N2) (hf1 : N1 ≤ fuel) (hf2 : N2 ≤ fuel)
+    (ha1 : FoldAgreeL fold (tri pat i)) (ha2 : FoldAgreeL fold (tri pat j)) :
+    SubOk ctx 0 (mkSubCI ctx fileName (pat.map toLowerRune) i j
+      (generateCase fold (tri pat i) fuel) (generateCase fold (tri pat j) fuel)) := by
+  have htri : ∀ k, tri (pat.map toLowerRune) k = (tri pat k).map toLowerRune := by
+    intro k; simp [tri, List.map_drop, List.map_take]
+  refine mkSubCI_ok ctx fileName (pat.map toLowerRune) i j _ _ hij (by simpa using hj) (by simpa using hsz) ?_ ?_
+  · intro g' h
+    rw [htri] at h
+    exact variants_cover_lower fold (tri pat i) N1 fuel ho1 hf1 ha1 g' h
+  · intro g' h
+    rw [htri] at h
+    exact variants_cover_lower fold (tri pat j) N2 fuel ho2 hf2 ha2 g' h
+
+/-! non-vacuity: ASCII case folding (a ↔ A); the trigram "ab-" has 2·2·1 = 4 variants, all generated -/
+def exFold (c : Nat) : Nat := if 97 ≤ c ∧ c ≤ 122 then c - 32 else if 65 ≤ c ∧ c ≤ 90 then c + 32 else c
+example : Cyc exFold 97 2 ∧ Cyc exFold 98 2 ∧ Cyc exFold 45 1 := by
+  refine ⟨⟨by omega, by decide, ?_⟩, ⟨by omega, by decide, ?_⟩, ⟨by omega, by decide, ?_⟩⟩
+  · intro j h1 h2; have : j = 1 := by omega
+    subst this; decide
+  · intro j h1 h2; have : j = 1 := by omega
+    subst this; decide
+  · intro j h1 h2; omega
+example : generateCase exFold [97, 98, 45] 300 = [[65, 98, 45], [97, 66, 45], [65, 66, 45], [97, 98, 45]] := by decide
 
 /-! non-vacuity: a shard of 5 documents (document 3 dead), tree `and[doc-predicate, not(regexp verdicts), or[branch, none]]` -/
 def exCtx : Ctx := ⟨[[97], [98], [99], [100], [101]], [[], [], [], [], []], [true, true, true, false, true]⟩
